@@ -93,7 +93,7 @@ def main():
             lines = [l for l in cout.splitlines() if l.startswith("VIOLATION") or "-> exit" in l or l.startswith("  ")]
             r[f"check_{chk}_rc"] = crc
             r[f"check_{chk}_out"] = lines[-4:]
-        sh(f"{PY} harness/translate_hc.py --write; {PY} harness/translate_wiring.py --write", cwd=VROOT)  # restore the generated files to /repo's
+        sh(f"{PY} harness/translate_all.py --write", cwd=VROOT)  # restore the generated files to /repo's
         res[key] = r
         json.dump(res, open(a.out, "w"), indent=1)
         print(key, "demo", rc0, "->", rc1, "| baseline broken:", r.get("baseline_broken"), "| check rc", r.get(f"check_{prop}_rc"), flush=True)
